@@ -211,14 +211,20 @@ class TiledStridedLayoutAttr(MemRefLayoutAttr, Data[TiledStridedLayout]):
         # generate ops for the maximum
         # the max static stride multiplied by the bound of that Stride
         # can be used as a starting value for the dynamic strides
-        max_stride_op = ConstantOp.from_int_and_width(max_value, IndexType())
-        result.append(max_stride_op)
-        dynamic_step = MuliOp(
-            bound_ops[max_key],
-            max_stride_op,
-            IndexType(),
-        )
-        result.append(dynamic_step)
+        if max_value == 0:
+            # no static step anywhere: default to the most right stride (row-major-like),
+            # i.e. the innermost tile of the last dimension is contiguous
+            dynamic_step = ConstantOp.from_int_and_width(el_bytes, IndexType())
+            result.append(dynamic_step)
+        else:
+            max_stride_op = ConstantOp.from_int_and_width(max_value, IndexType())
+            result.append(max_stride_op)
+            dynamic_step = MuliOp(
+                bound_ops[max_key],
+                max_stride_op,
+                IndexType(),
+            )
+            result.append(dynamic_step)
 
         # assign strides right to left
         for dim in reversed(range(tsl.dimension())):
